@@ -501,7 +501,22 @@ impl Sim {
                                 served.push((m.entries[0].data.to_vec(), m.index));
                             }
                         }
+                        // the acknowledgement that triggered the release was counted for a re-recorded
+                        // duplicate of an already answered request (matched by context alone): every OTHER
+                        // read it releases was not confirmed by a heartbeat round of its own or a later
+                        // request - the known finding `stale-read-by-duplicates`, not an abstract serve
+                        let dup_trigger: Option<Vec<u8>> = match &c {
+                            Call::Step(m) if m.get_msg_type() == MessageType::MsgHeartbeatResponse && self.pt.read_dups.contains(&(nid, m.context.to_vec())) => Some(m.context.to_vec()),
+                            _ => None,
+                        };
                         for (ctx, idx) in served {
+                            if let Some(d) = &dup_trigger {
+                                if *d != ctx {
+                                    self.pt.released_by_duplicate += 1;
+                                    self.pt.tainted_reads.insert(ctx.clone());
+                                    continue;
+                                }
+                            }
                             if !pending_pre.contains(&ctx) && !evs.iter().any(|e| e.0 == 10 && e.1 == ctx) {
                                 // answered at once (the leader alone is the quorum): request and service coincide
                                 evs.push((10, ctx.clone(), idx, 0));
@@ -511,7 +526,7 @@ impl Sim {
                     }
                     for (k, ctx, idx, peer) in evs {
                         match k {
-                            10 => self.pt.read_req(nid, &ctx, idx),
+                            10 => self.pt.read_req(nid, term, &ctx, idx),
                             11 => self.pt.hb_ack(nid, peer, term, &ctx),
                             _ => self.pt.read_serve(nid, &ctx, idx),
                         }
